@@ -185,6 +185,48 @@ def operator_table_obligations(chk, e, tag="", only=None):
     else:
         chk.undecided(f"{tag}operator-tables", str(paths[0].value if paths else "no path"))
 
+
+def reversing_checker_obligations(chk, e, tables, tag=""):
+    """ReversingChecker (std/_internal/checker.py): every reflected method `__rOP__` of nat / int / float is
+    `__OP__` of the same type called with the operands swapped.  Shared with C16: a narrower LEFT operand
+    is widened only through this route (`nat >> int` fails in nat.__rshift__, falls to int.__rrshift__,
+    which must re-dispatch to int.__rshift__ with the nat converted)."""
+    # ------------------------------------------------------------------ reflected checkers: real code of ReversingChecker / DunderChecker
+    CK = "guppylang_internals.std._internal.checker"
+    e.func_info(CK, "ReversingChecker.parse_name")
+    e.func_info(CK, "ReversingChecker.synthesize")
+    e.func_info(CK, "DunderChecker.synthesize")
+    refl_names = sorted({n for ty in ("nat", "int", "float") for n, b in tables[ty].items() if b.checker and b.checker[0] == "ReversingChecker"})
+    for rn in refl_names:
+        def thunk(it, rn=rn):
+            m = e.module(CK)
+            RC = it.lookup_global(m, "ReversingChecker")
+            log = []
+            selfty = SObj(ClassVal("Ty"), {"n": "selfty"})
+
+            def get_instance_func(ty, name):
+                def synthesize_call(args, node, ctx):
+                    log.append((ty, name, list(args)))
+                    return ("CALL", name)
+                return SObj(ClassVal("Func"), {"synthesize_call": Builtin("synthesize_call", synthesize_call)})
+            ctx = SObj(ClassVal("Ctx"), {"globals": SObj(ClassVal("Globals"), {"get_instance_func": Builtin("gif", get_instance_func)})})
+            e.models["guppylang_internals.checker.expr_checker:ExprSynthesizer"] = lambda it2, a, k: SObj(ClassVal("Synth"), {
+                "synthesize": Builtin("synthesize", lambda x: (("SYN", x), selfty))})
+            rc = SObj(RC, {"func": SObj(ClassVal("F"), {"name": rn}), "ctx": ctx, "node": "NODE"})
+            out = it.call_method(rc, "synthesize", [["SELF", "OTHER"]])
+            return out, log, selfty
+        paths = e.explore(thunk)
+
+        def post(p, rn=rn):
+            if p.kind != "return":
+                return z3.BoolVal(False)
+            out, log, selfty = p.value
+            ok = (len(log) == 1 and log[0][0] is selfty and log[0][1] == "__" + rn[3:]
+                  and log[0][2] == ["OTHER", ("SYN", "SELF")] and out == ("CALL", "__" + rn[3:]))
+            return z3.BoolVal(ok)
+        chk.prove_paths(f"{tag}ReversingChecker[{rn}]:calls-{'__' + rn[3:]}-of-type(self)-with-(other,self)", paths, post, func=f"{CK}:ReversingChecker.synthesize")
+    e.models.pop("guppylang_internals.checker.expr_checker:ExprSynthesizer", None)
+
 def run(chk):
     e = mk_engine(chk)
     B.install_models(e)
@@ -325,41 +367,8 @@ def run(chk):
     from .C16 import try_coerce_obligations
     try_coerce_obligations(chk, e, tag="mixed-operands:")
 
-    # ------------------------------------------------------------------ reflected checkers: real code of ReversingChecker / DunderChecker
+    reversing_checker_obligations(chk, e, tables)
     CK = "guppylang_internals.std._internal.checker"
-    e.func_info(CK, "ReversingChecker.parse_name")
-    e.func_info(CK, "ReversingChecker.synthesize")
-    e.func_info(CK, "DunderChecker.synthesize")
-    refl_names = sorted({n for ty in ("nat", "int", "float") for n, b in tables[ty].items() if b.checker and b.checker[0] == "ReversingChecker"})
-    for rn in refl_names:
-        def thunk(it, rn=rn):
-            m = e.module(CK)
-            RC = it.lookup_global(m, "ReversingChecker")
-            log = []
-            selfty = SObj(ClassVal("Ty"), {"n": "selfty"})
-
-            def get_instance_func(ty, name):
-                def synthesize_call(args, node, ctx):
-                    log.append((ty, name, list(args)))
-                    return ("CALL", name)
-                return SObj(ClassVal("Func"), {"synthesize_call": Builtin("synthesize_call", synthesize_call)})
-            ctx = SObj(ClassVal("Ctx"), {"globals": SObj(ClassVal("Globals"), {"get_instance_func": Builtin("gif", get_instance_func)})})
-            e.models["guppylang_internals.checker.expr_checker:ExprSynthesizer"] = lambda it2, a, k: SObj(ClassVal("Synth"), {
-                "synthesize": Builtin("synthesize", lambda x: (("SYN", x), selfty))})
-            rc = SObj(RC, {"func": SObj(ClassVal("F"), {"name": rn}), "ctx": ctx, "node": "NODE"})
-            out = it.call_method(rc, "synthesize", [["SELF", "OTHER"]])
-            return out, log, selfty
-        paths = e.explore(thunk)
-
-        def post(p, rn=rn):
-            if p.kind != "return":
-                return z3.BoolVal(False)
-            out, log, selfty = p.value
-            ok = (len(log) == 1 and log[0][0] is selfty and log[0][1] == "__" + rn[3:]
-                  and log[0][2] == ["OTHER", ("SYN", "SELF")] and out == ("CALL", "__" + rn[3:]))
-            return z3.BoolVal(ok)
-        chk.prove_paths(f"ReversingChecker[{rn}]:calls-{'__' + rn[3:]}-of-type(self)-with-(other,self)", paths, post, func=f"{CK}:ReversingChecker.synthesize")
-    e.models.pop("guppylang_internals.checker.expr_checker:ExprSynthesizer", None)
 
     # builtin functions -> dunder names (decorator arguments read from the source)
     def t_builtins(it):
